@@ -16,12 +16,13 @@ RULE = ('programs from the typed generator (core + aggregation + negation + inje
         'original\'s and the result is non-empty; distinct by (variant text, predicate).')
 ASSUMPTIONS = ['reference evaluator lv/ref.py arbitrates', 'CPython sqlite3',
                'recursion / functor programs are covered by C03 / C04 variants']
-OPTS = dict(p_colnames=0.0, p_head_perm=0.2, p_neg=0.25, p_agg=0.35, p_distinct=0.4, p_null_fact=0.03,
+OPTS = dict(p_colnames=0.0, p_head_perm=0.2, p_spread_edb=0.35, p_neg=0.25, p_agg=0.35, p_distinct=0.4, p_null_fact=0.03,
             p_or=0.3, p_fcall=0.1, p_sibling_reuse=0.4, p_feed_sibling=0.3,
-            agg_ops=('Sum', 'Min', 'Max', '+', 'List', 'Set', 'ArgMin', 'ArgMax'),
+            agg_ops=('Sum', 'Min', 'Max', '+', 'List', 'Set', 'ArgMin', 'ArgMax', 'ArgMax2',
+                     'ArgMin2'),
             pred_agg_ops_n=('Sum', 'Min', 'Max', 'Count', '+', 'List', 'Set', 'ArgMin',
-                            'ArgMax'),
-            pred_agg_ops_s=('Min', 'Max', 'List', 'Set', 'ArgMax', 'Count'),
+                            'ArgMax', 'ArgMax2', 'ArgMin2', 'ArgMax3'),
+            pred_agg_ops_s=('Min', 'Max', 'List', 'Set', 'ArgMax', 'Count', 'ArgMin2'),
             n_idb=(2, 3), nest_depth=2, n_inj=(0, 2))
 KINDS = ('permute', 'alpha', 'preds', 'all')
 
